@@ -155,7 +155,8 @@ def gen_reply(rng, nv):
     model = [rng.choice([True, False]) for _ in range(nv)]
     lits = [(i + 1) if v else -(i + 1) for i, v in enumerate(model)]
     comments = ["c kissat", "c", "c " + "x" * rng.randint(0, 60)]
-    kind = rng.choice(["sat", "sat", "sat_split", "unsat", "truncated", "nostatus", "statusonly", "garbage", "empty", "twostatus", "oob", "notnum", "twozero", "crlf"])
+    kind = rng.choice(["sat", "sat", "sat_split", "unsat", "truncated", "nostatus", "statusonly", "garbage", "empty", "twostatus", "oob", "notnum", "twozero", "crlf",
+                       "unsat_then_sat", "unsat_garbage", "unsat_badv", "unsat_comments", "sat_then_garbage", "sat_then_status", "atoms", "atoms"])
     ls = []
     for _ in range(rng.randint(0, 3)):
         ls.append(rng.choice(comments))
@@ -198,6 +199,30 @@ def gen_reply(rng, nv):
     elif kind == "notnum":
         ls += ["s SATISFIABLE", "v 1 x 0"]
         exp = "undecided"
+    elif kind == "unsat_then_sat":
+        ls += ["s UNSATISFIABLE", "s SATISFIABLE", "v " + " ".join(map(str, lits + [0]))]
+        exp = "undecided"
+    elif kind == "unsat_garbage":
+        ls += ["s UNSATISFIABLE", rng.choice(["killed: out of memory", "s UNKNOWN", "Segmentation fault", "x"])]
+        exp = "undecided"
+    elif kind == "unsat_badv":
+        ls += ["s UNSATISFIABLE", rng.choice(["v 1 x 0", "v %d 0" % (nv + 2), "v 0 0"])]
+        exp = "undecided"
+    elif kind == "unsat_comments":
+        ls += ["s UNSATISFIABLE"] + [rng.choice(comments) for _ in range(rng.randint(1, 3))]
+        exp = "unsat"
+    elif kind == "sat_then_garbage":
+        ls += ["s SATISFIABLE", "v " + " ".join(map(str, lits + [0])), rng.choice(["Segmentation fault", "s UNKNOWN", "x y"])]
+        exp = "undecided"
+    elif kind == "sat_then_status":
+        ls += ["s SATISFIABLE", "v " + " ".join(map(str, lits + [0])), rng.choice(["s SATISFIABLE", "s UNSATISFIABLE"])]
+        exp = "undecided"
+    elif kind == "atoms":
+        # arbitrary sequences of line atoms: no expectation of ours, the reference is the Lean reply parser
+        atoms = ["s SATISFIABLE", "s UNSATISFIABLE", "v " + " ".join(map(str, lits + [0])), "v " + " ".join(map(str, lits[:max(1, nv // 2)])),
+                 "v 0", "v", "c", "c note", "", "s UNKNOWN", "v 1 x 0", "v %d 0" % (nv + 1), " v 1 0", "garbage"]
+        ls = [rng.choice(atoms) for _ in range(rng.randint(1, 5))]
+        exp = "model"
     else:  # twozero
         ls += ["s SATISFIABLE", "v " + " ".join(map(str, lits + [0, 0]))]
         exp = "undecided"
@@ -212,8 +237,8 @@ class C16(Property):
     needs_bins = False
     rule = ("(1) every DIMACS instance captured from the static solvers run through the external backend (all encoders, selector and assumption patterns) and from "
             "random incremental histories is checked by a recogniser (exact clause count, variable count covers clauses and assumptions) and compared with the Lean "
-            "rendering; (2) generated well- and ill-formed replies (split v lines, comments, CR/LF, truncation, missing/duplicate status, garbage, out-of-range and "
-            "non-numeric literals) are fed through a scripted external program and the result compared with the Lean reply parser and with the expected class; "
+            "rendering; (2) generated well- and ill-formed replies (split v lines, comments, CR/LF, truncation, missing/duplicate/contradictory status lines in either order, garbage or ill-formed value lines after either status line, out-of-range and "
+            "non-numeric literals, arbitrary sequences of line atoms) are fed through a scripted external program and the result compared with the Lean reply parser and with the expected class; "
             "(3) timed runs with solver outputs from 1 KiB to 1 MiB around the pipe capacity; non-trivial = reply or instance with at least one literal")
     assumptions = ["OS pipes, process spawning and scheduling are represented by the abstract Pipe model only; the tie is the timed run",
                    "kissat as the honest external solver"]
@@ -253,6 +278,8 @@ class C16(Property):
                 ok = got == "s " + exp[4:]
                 if not ok:
                     fs.append(Finding("input", case_line, "a well-formed SATISFIABLE reply was reported as %r" % got[:40], "reply %s · printed model not reported faithfully" % kind))
+            elif exp == "model":
+                pass    # judged against the Lean reply parser below
             elif exp == "unsat":
                 if got != "u":
                     fs.append(Finding("input", case_line, "UNSATISFIABLE was reported as %r" % got[:40], "reply %s · unsat not reported" % kind))
